@@ -56,13 +56,19 @@ def judge_field(ctx, rs, f, c, tr, field, required, kwargs_alloc, SPECS, LINES):
         if strip(st.key) != ("const", field) or (kwargs_alloc is not None and strip(st.target) != strip(kwargs_alloc)):
             fail(rs, ctx, st.g, st.node, f"the setter must store kwargs[field_name] = scan(field_name) for one and the same field; for "
                                          f"{field!r} it stores {show(st.target)[:40]}[{show(st.key)[:40]}] = {show(st.value)[:100]}")
-        if st.cond:
+        st_trys = st.trys
+        crec_trys = tuple(st.callrec[3].trys) if st.callrec is not None else ()
+        if not st.trys and len(crec_trys) == 1 and st.cond == (((("raises", crec_trys[0][0])), False),):
+            # `try: v = scan(f)  except RegexNotMatchError: ...  else: kwargs[f] = v` -- the store in the else clause of the try
+            # around the scan runs exactly when the scan did not raise, like a store inside the try body after the scan
+            st_trys = crec_trys
+        elif st.cond:
             fail(rs, ctx, st.g, st.node, f"field {field!r} is only stored under a condition ({cond_str(st.cond)[:120]})")
-        if len(st.trys) != 1:
+        if len(st_trys) != 1:
             fail(rs, ctx, st.g, st.node, "the store is not inside exactly one try: an absent optional field would raise / a failure is swallowed twice"
                  if not st.trys else "the store is enclosed by more than one try")
         else:
-            tid, handlers = st.trys[-1]
+            tid, handlers = st_trys[-1]
             hn = [exc_name(h) for hs in handlers if hs is not None for h in hs]
             if hn != [RNM] or any(hs is None for hs in handlers):
                 fail(rs, ctx, st.g, st.node, f"the handler must catch exactly RegexNotMatchError; catches {hn}")
@@ -145,42 +151,8 @@ def judge_scan(ctx, rs, g, gs, field, SP, LINES):
     return method
 
 
-def run(ctx, rep):
-    rep.explanation = (
-        "The 24 field recognisers are recovered by constant folding through the spec classes' __init__ chains and the regex "
-        "factory; decided by automata for all strings: 276 pairwise intersections empty (no line can feed two fields, so order and "
-        "other fields' values are irrelevant), 24 canonical inclusions, 24 capture-exactness checks under backtracking priority "
-        "(inner text verbatim, one pair of quotes removed, closing quote = last quote), numeric groups ⊆ \\d+.  Agreement table with "
-        "24 rows: dataclass field <-> spec key <-> literal passed to set_kwarg/maybe_set_kwarg <-> Pascal name in the folded regex <-> "
-        "conversion <-> annotated type.  The scan visits all lines (list(lines_iter)), returns at the first matching line, stores under "
-        "the same key; only resolution goes through the raising callback (MissingRequiredField); defaults fold to the documented table.")
-    rep.trusted += ["re._parser", "ordered-thread simulation == sre backtracking (validated in selftest/rx_validate.py)"]
-    mc = ctx.cls(META)
-    mod = ctx.prog.modules["chartparse.metadata"]
-    f = ctx.func(f"{META}.from_chart_lines")
-    s = ctx.summary(f)
-    ra = rep.rule("agreement", "field <-> spec key <-> call literal <-> regex name <-> conversion <-> type", floor=24)
-    rd = rep.rule("defaults", "dataclass defaults = documented table; resolution required", floor=24)
-    rl = rep.rule("language", "every canonical 'Field = value' line is accepted by its own field's recogniser", floor=24)
-    rc = rep.rule("capture", "captured value = inner text verbatim (one pair of quotes removed) / the digits / the word", floor=24)
-    rx_ = rep.rule("disjoint", "pairwise disjoint field languages (276 pairs)", floor=276)
-    rs = rep.rule("scan", "per field, whatever the decomposition into helpers: all lines scanned, first matching line wins, value stored under the own key inside try/except RegexNotMatchError, a required field raises MissingRequiredField(field) exactly when no line matched, an optional one does nothing", floor=25)
-    # ---- spec dict
-    specs_t = None
-    gname = None
-    for name in mod.assigns:
-        t = ctx.ev.global_value(mod, name)
-        if t[0] == "dict" and len(t[1]) >= 20:
-            specs_t, gname = t, name
-    if specs_t is None:
-        fail(ra, ctx, f, f.node, "cannot find the module-level field-spec table (a dict literal with one entry per field)")
-        return
-    try:
-        specs = ctx.fold.fold(specs_t)
-    except NotConstant as e:
-        fail(ra, ctx, f, f.node, f"the field-spec table does not fold to constants: {e}")
-        return
-    SPECS = ("gvar", f"chartparse.metadata.{gname}")
+def check_field_flow(ctx, rs, ra, f, s, specs, SPECS, only=None):
+    """What Metadata.from_chart_lines does per field (all 24, or the ones in `only`): returns ({field: [(callee, callrec, trace)]}, regex method)."""
     # ---- what the parser does per field, whatever the decomposition into helpers (sa/rules/fieldtrace.py)
     method = "match"
     kwargs_alloc = None
@@ -259,8 +231,12 @@ def run(ctx, rep):
             tracer.walk(tr, callee, b2, cenv, (), (), 0)
             called.setdefault(nm, []).append((callee.qual, c, tr))
     for field, (kind, default) in FIELDS.items():
+        if only is not None and field not in only:
+            continue
         cs = called.get(field, [])
         if len(cs) != 1:
+            if only is not None:
+                fail(ra, ctx, f, f.node, f"field {field!r} must be looked for exactly once; found {len(cs)} setter call(s)")
             continue  # reported in the agreement table below
         _, c, tr = cs[0]
         rs.inst(f"{field}: kwargs[{field!r}] = first matching line's converted value; absent -> "
@@ -273,6 +249,46 @@ def run(ctx, rep):
         method = ms.pop()
     elif len(ms) > 1:
         fail(rs, ctx, f, f.node, f"the fields are recognised with different regex methods {sorted(ms)}; the language obligations assume one")
+    return called, method
+
+
+def run(ctx, rep):
+    rep.explanation = (
+        "The 24 field recognisers are recovered by constant folding through the spec classes' __init__ chains and the regex "
+        "factory; decided by automata for all strings: 276 pairwise intersections empty (no line can feed two fields, so order and "
+        "other fields' values are irrelevant), 24 canonical inclusions, 24 capture-exactness checks under backtracking priority "
+        "(inner text verbatim, one pair of quotes removed, closing quote = last quote), numeric groups ⊆ \\d+.  Agreement table with "
+        "24 rows: dataclass field <-> spec key <-> literal passed to set_kwarg/maybe_set_kwarg <-> Pascal name in the folded regex <-> "
+        "conversion <-> annotated type.  The scan visits all lines (list(lines_iter)), returns at the first matching line, stores under "
+        "the same key; only resolution goes through the raising callback (MissingRequiredField); defaults fold to the documented table.")
+    rep.trusted += ["re._parser", "ordered-thread simulation == sre backtracking (validated in selftest/rx_validate.py)"]
+    mc = ctx.cls(META)
+    mod = ctx.prog.modules["chartparse.metadata"]
+    f = ctx.func(f"{META}.from_chart_lines")
+    s = ctx.summary(f)
+    ra = rep.rule("agreement", "field <-> spec key <-> call literal <-> regex name <-> conversion <-> type", floor=24)
+    rd = rep.rule("defaults", "dataclass defaults = documented table; resolution required", floor=24)
+    rl = rep.rule("language", "every canonical 'Field = value' line is accepted by its own field's recogniser", floor=24)
+    rc = rep.rule("capture", "captured value = inner text verbatim (one pair of quotes removed) / the digits / the word", floor=24)
+    rx_ = rep.rule("disjoint", "pairwise disjoint field languages (276 pairs)", floor=276)
+    rs = rep.rule("scan", "per field, whatever the decomposition into helpers: all lines scanned, first matching line wins, value stored under the own key inside try/except RegexNotMatchError, a required field raises MissingRequiredField(field) exactly when no line matched, an optional one does nothing", floor=25)
+    # ---- spec dict
+    specs_t = None
+    gname = None
+    for name in mod.assigns:
+        t = ctx.ev.global_value(mod, name)
+        if t[0] == "dict" and len(t[1]) >= 20:
+            specs_t, gname = t, name
+    if specs_t is None:
+        fail(ra, ctx, f, f.node, "cannot find the module-level field-spec table (a dict literal with one entry per field)")
+        return
+    try:
+        specs = ctx.fold.fold(specs_t)
+    except NotConstant as e:
+        fail(ra, ctx, f, f.node, f"the field-spec table does not fold to constants: {e}")
+        return
+    SPECS = ("gvar", f"chartparse.metadata.{gname}")
+    called, method = check_field_flow(ctx, rs, ra, f, s, specs, SPECS)
     dc = {fl.name: fl for fl in mc.dc_fields()}
     for field, (kind, default) in FIELDS.items():
         ra.inst(f"{field}: {pascal(field)} / {kind}")
